@@ -44,10 +44,13 @@ try:
         print("cannot parse demo_path.txt:", dp); raise SystemExit(1)
     os.makedirs(os.path.dirname(os.path.join(wt, target)) or wt, exist_ok=True)
     shutil.copy(demo_src, os.path.join(wt, target))
+    failed = lambda rc, o: rc != 0 or re.search(r"^(--- FAIL|FAIL\b|panic:)", o, re.M) is not None   # the command may end in a pipe
     rc1, o1 = sh(cmd, cwd=wt, timeout=1800)
+    rc1 = 1 if failed(rc1, o1) else 0
     meta["demo_with_patch"] = "FAIL" if rc1 != 0 else "PASS"
     sh("git apply -R %s" % patch, cwd=wt)
     rc2, o2 = sh(cmd, cwd=wt, timeout=1800)
+    rc2 = 1 if failed(rc2, o2) else 0
     meta["demo_without_patch"] = "FAIL" if rc2 != 0 else "PASS"
     meta["ran"].append(cmd)
     sh("git apply %s" % patch, cwd=wt)
@@ -84,6 +87,19 @@ try:
     meta["caught_by"] = [c for c, r in meta["checks"].items() if any(v["exit"] == 1 for v in r.values())]
     dst = os.path.join(ROOT, "seeded", name)
     os.makedirs(dst, exist_ok=True)
+    # keep what earlier runs of our checks said about this change (missed -> strengthened -> caught)
+    hist = []
+    if os.path.exists(os.path.join(dst, "meta.json")):
+        try:
+            old = json.load(open(os.path.join(dst, "meta.json")))
+            hist = old.get("history", [])
+            if old.get("confirmed"):
+                hist.append({"verif_head": old.get("verif_head", "?"), "repo_head": old.get("repo_head"), "caught_by": old.get("caught_by"),
+                             "summaries": {c: {t: v.get("summary", "")[:160] for t, v in r.items()} for c, r in (old.get("checks") or {}).items()}})
+        except Exception:
+            pass
+    meta["history"] = hist
+    meta["verif_head"] = sh("git -C %s rev-parse --short HEAD" % ROOT)[1].strip()
     shutil.copy(patch, os.path.join(dst, "patch.diff"))
     shutil.copy(demo_src, os.path.join(dst, os.path.basename(demo_src)))
     shutil.copy(os.path.join(out, "demo_path.txt"), os.path.join(dst, "demo_path.txt"))
